@@ -22,8 +22,10 @@
         of `solve()`, re-initialised from `allows_primal_dual_scaling`), not the barrier work vectors
         (locals of `compute_barrier`);
    (ii) nothing through a multiplication by zero (as in the symmetric model since /repo 1706c1f);
-  (iii) the stale ITERATE only on the SYMMETRIC branch of `default_start`, when `solve_initial_point`
-        fails.  With a nonsymmetric cone in the composite `default_start` is `unit_initialization`: it
+  (iii) NOT the stale ITERATE any more (since /repo 7c1c881 `solve_initial_point` zero-fills
+        `variables.x/s/z` first: `ns_solve_ignores_iterate`, the `…_any_start` theorems at the end of
+        this file).  Before, it was read on the SYMMETRIC branch of `default_start` when
+        `solve_initial_point` failed (hypothesis `InitPointOk` of the older theorems).  With a nonsymmetric cone in the composite `default_start` is `unit_initialization`: it
         overwrites `x, s, z, τ, κ` from the cones' static parameters and makes no KKT call — condition
         (iii) of the symmetric theorem DISAPPEARS (`InitPointOk.of_nonsymmetric`,
         `ns_solve_idempotent_nonsymmetric`);
@@ -33,6 +35,7 @@
         expansion (`ns_update_forgets`).
 -/
 import ClarabelProofs.Lemmas.SolverNSStaleIdem
+import ClarabelProofs.Lemmas.SolverNSStaleAnyStart
 import ClarabelProofs.Lemmas.SolverNSStaleExample
 
 namespace Clarabel.C05
@@ -208,5 +211,86 @@ example : ∃ S r, newSolver 3 = .ok S ∧ S.solve (st 3) = .ok r ∧ SolverNS.C
   exact ⟨S, r1, hS, h1, hI.st.shapes.cones, hk, hU, hsh⟩
 
 end nsstaleExamples
+
+/-! ### condition (iii) removed (code since /repo 7c1c881, see `Props/C05Idem.lean`, section `anyStart`) -/
+section nsAnyStart
+variable {α : Type} [Add α] [Sub α] [Mul α] [Div α] [Neg α] [LT α] [LE α] [DecidableLT α]
+  [DecidableLE α] [BEq α] [OfNat α 0] [OfNat α 1] [OfNat α 2] [OfNat α 3] [OfNat α 4] [OfNat α 100]
+  [OfNat α 1000] [OfScientific α] [FloatLike α]
+
+/-- [S] `C05.ns_solve_ignores_iterate`: on the symmetric branch of `default_start` (every cone symmetric)
+`solve()` does not read `variables.x/s/z`: zero-filling the three vectors of the solver object before
+the call changes nothing (an equation: same error or same `SolveResult`).  (With a nonsymmetric cone
+`unit_initialization` overwrites the entries inside the cones; see `ns_solve_reads_only_any_start`.) -/
+theorem ns_solve_ignores_iterate (S : SolverNS.Solver α) (st : SolverNS.Settings α)
+    (hs : SolverNS.isSymmetric S.st.cones = true) : S.zeroVars.solve st = S.solve st :=
+  SolverNS.solve_zeroVars S st hs
+
+/-- [S] `C05.ns_solve_reads_only_any_start`: `ns_solve_reads_only` without its hypothesis on the initial
+point — for every composite cone, symmetric or not. -/
+theorem ns_solve_reads_only_any_start (hbeq : ((0 : α) == 0) = true) {k : Nat}
+    {Bw : KktSolver α → KktSolver α → Prop} (st : SolverNS.Settings α) (hsim : KktSimN k st.lin Bw)
+    {S S' : SolverNS.Solver α} (h : SolverNS.Stale Bw S.st S'.st) (hk : k ≤ nSpN S.st.cones)
+    (hsol : SolShape ((Solver.presolveMap S.st.data).map (fun m => m.keep.size)) S.solution S'.solution) :
+    RelM SolverNS.SolveObs (S.solve st) (S'.solve st) :=
+  SolverNS.solve_rel_any hbeq st hsim h hk hsol
+
+/-- [S] `C05.ns_solve_stale_any_start`: `ns_solve_stale` without its hypothesis on the initial point. -/
+theorem ns_solve_stale_any_start (hbeq : ((0 : α) == 0) = true) (st : SolverNS.Settings α)
+    {KI KI' : KktSolver α → Prop} {S S' : SolverNS.Solver α} (hS : SolverNS.Shapes KI S.st)
+    (hS' : SolverNS.Shapes KI' S'.st) (hd : S.st.data = S'.st.data)
+    (hc : SolverNS.ConesShape S.st.cones S'.st.cones) {k : Nat}
+    (hB : BwN k st.lin S.st.kktsystem.kktsolver S'.st.kktsystem.kktsolver) (hk : k ≤ nSpN S.st.cones)
+    (hsol : SolShape ((Solver.presolveMap S.st.data).map (fun m => m.keep.size)) S.solution S'.solution) :
+    RelM SolverNS.SolveObs (S.solve st) (S'.solve st) :=
+  SolverNS.solve_rel_any hbeq st (kktSimN k st.lin) (SolverNS.Stale.of_shapes hS hS' hd hc hB) hk hsol
+
+/-- [S] `C05.ns_solve_idempotent_any_start`: **the same solver solved twice — no condition left** (model
+with nonsymmetric cones; composite cone symmetric or not).  If the first `solve()` on a solver object
+returned `r1`, the second `solve()` on the object it left returns the same observable result; the
+hypotheses are the two structural invariants every object built by `DefaultSolver::new` has and
+`solve()` preserves.  `ns_solve_idempotent` without (iii). -/
+theorem ns_solve_idempotent_any_start (hbeq : ((0 : α) == 0) = true) (st : SolverNS.Settings α)
+    {S : SolverNS.Solver α} {r1 : SolverNS.SolveResult α} (h1 : S.solve st = .ok r1)
+    (hI : SolverInvN S) (hk : SolverNS.KktOk S.st) :
+    (∃ r2, r1.S.solve st = .ok r2 ∧ SolverNS.SolveObs r1 r2) ∧ SolverInvN r1.S ∧ SolverNS.KktOk r1.S.st := by
+  obtain ⟨hI1, hI1'⟩ := solve_inv_of_ok hI h1
+  exact ⟨solve_twice_obsN_any hbeq st h1 hI hI1 hk, hI1', (solve_kktOkN h1 hI.st.shapes.cones hk).1⟩
+
+/-- [S] `C05.ns_solve_idempotent_new_any_start`: the same for a solver object fresh from
+`DefaultSolver::new` on well-formed input: what is left are the input hypotheses of `new`. -/
+theorem ns_solve_idempotent_new_any_start (hbeq : ((0 : α) == 0) = true) {P : Csc α} {q : Array α}
+    {A : Csc α} {b : Array α} {cones : List (ConeT α)} {st : SolverNS.Settings α} {perm : Array Nat}
+    (hin : InputOKN P q A b cones) (hn : 0 < P.n) (hperm : PermForN P q A b cones st perm)
+    (hpiv : PivotOK st.lin) {S : SolverNS.Solver α}
+    (hS : SolverNS.Solver.new P q A b cones st perm = .ok S) {r1 : SolverNS.SolveResult α}
+    (h1 : S.solve st = .ok r1) :
+    ∃ r2, r1.S.solve st = .ok r2 ∧ SolverNS.SolveObs r1 r2 :=
+  (ns_solve_idempotent_any_start hbeq st h1 (solverNew_invQ hin hn hperm hpiv hS)
+    (solverNew_kktOkN hin hn hperm hS)).1
+
+end nsAnyStart
+
+/-! non-vacuity of the `…_any_start` theorems (scalar type `Int`) -/
+section nsAnyStartExamples
+open Clarabel.SolverNS.Example
+attribute [local instance] intFloatLike intSci
+
+/-- `ns_solve_reads_only_any_start` applies to the example solver and its poisoned copy with no side
+condition on the initial point -/
+example {S : SolverNS.Solver Int} (h : newSolver 3 = .ok S) :
+    RelM SolverNS.SolveObs (S.solve (st 3)) ((poison S).solve (st 3)) :=
+  have hI : SolverInvN S := solverNew_invQ exInputOKN (by decide) exPermForN (exPivotOK 3) h
+  ns_solve_reads_only_any_start (by decide) (st 3) (kktSimN 0 (st 3).lin)
+    (stale_poison hI.st.shapes 0 (st 3).lin) (Nat.zero_le _) (solShape_poison _ S)
+
+/-- the hypotheses of `ns_solve_idempotent_any_start` hold on the example run, and so does its conclusion -/
+example : ∃ S r1, newSolver 3 = .ok S ∧ S.solve (st 3) = .ok r1 ∧ SolverInvN S ∧ SolverNS.KktOk S.st
+    ∧ ∃ r2, r1.S.solve (st 3) = .ok r2 ∧ SolverNS.SolveObs r1 r2 := by
+  obtain ⟨S, r1, hS, hI, h1, _⟩ := exSolve_inv
+  have hk := ns_new_solver_kkt_well_formed exInputOKN (by decide) exPermForN hS
+  exact ⟨S, r1, hS, h1, hI, hk, (ns_solve_idempotent_any_start (by decide) (st 3) h1 hI hk).1⟩
+
+end nsAnyStartExamples
 
 end Clarabel.C05
